@@ -55,9 +55,11 @@ structure DenCfg where
   env : String → Option Val
   callNo : Nat := 0
   impureFns : List String := []
+  constFns : List (String × Val) := []
 
 def DenCfg.call (d : DenCfg) (n : Nat) (f : String) (pos : List Val) (kwn : List String) (kwv : List Val) : Val :=
-  if d.impureFns.contains f then .imp f d.callNo n pos kwn kwv else .app f pos kwn kwv
+  if let some (_, v) := d.constFns.find? (·.1 == f) then v
+  else if d.impureFns.contains f then .imp f d.callNo n pos kwn kwv else .app f pos kwn kwv
 
 def denNode (g : Graph) (d : DenCfg) (acc : List Den) (i : Nat) (nd : Node) : Den :=
   if g.usedInputs.contains i then
